@@ -202,3 +202,38 @@ pub struct Case {
     pub init_via: u8,
     pub events: Vec<Ev>,
 }
+
+#[cfg(test)]
+mod tests {
+    use super::*;
+    use crate::sut::Sp;
+
+    /// every event kind survives text -> parse unchanged (replay files are faithful)
+    #[test]
+    fn text_round_trip() {
+        let acc = |sp: Sp, sub: bool| Acc { sp, sub, ops: (0..sp.arity() as u32).map(|i| 0x4000_0000 ^ (i * 0x1234_567)).collect() };
+        let mut evs = vec![
+            Ev::Clear(1),
+            Ev::Neg(0),
+            Ev::Load(0x8000_0000, 2),
+            Ev::Restart(1),
+            Ev::Inject([1, 2, 3, u64::MAX, 0, 0x8000_0000_0000_0000, 7, 0]),
+            Ev::Split2,
+            Ev::Split3,
+            Ev::Order(3, vec![acc(Sp::Arr3, true), acc(Sp::One, false), acc(Sp::Q22, true)]),
+            Ev::MatDot { r: 2, k: 3, c: 1, la: 2, lb: 1, a: vec![1, 2, 3, 4, 5, 6], b: vec![7, 8, 9] },
+        ];
+        for sp in Sp::ALL {
+            evs.push(Ev::Acc(acc(sp, false)));
+            if sp.has_sub() {
+                evs.push(Ev::Acc(acc(sp, true)));
+            }
+        }
+        for e in evs {
+            let t = e.text();
+            assert_eq!(Ev::parse(&t).unwrap(), e, "{t}");
+        }
+        assert!(Ev::parse("acc -= t3 1 2 3 4").is_err());
+        assert!(Ev::parse("inject 1 2 3").is_err());
+    }
+}
